@@ -55,7 +55,7 @@ def gen_database(r, nasty=0.0, size=None, allow_props=None, renderers=(0, 1), db
     """returns (G, info) where info maps roles to slot numbers"""
     g = G(r, nasty)
     info = {'tables': [], 'columns': {}, 'indexes': {}, 'refs': [], 'enums': [], 'groups': [], 'stickies': [],
-            'project': None, 'notes': [], 'exprs': [], 'enumitems': []}
+            'project': None, 'notes': [], 'exprs': [], 'enumitems': [], 'added': {}}
     allow = r.random() < 0.4 if allow_props is None else allow_props
     db = g.emit(Op(21, renderers[0], renderers[1], allow))
     info['db'] = db
@@ -150,9 +150,9 @@ def gen_database(r, nasty=0.0, size=None, allow_props=None, renderers=(0, 1), db
             g.emit(Op(52, t, ix))
             idxs.append(ix)
         info['indexes'][t] = idxs
-        g.emit(Op(30, r.choice([0, 0, 1]), db, t))
+        info['added'][t] = g.emit(Op(30, r.choice([0, 0, 1]), db, t))
     for e in enum_slots:
-        g.emit(Op(30, r.choice([0, 3]), db, e))
+        info['added'][e] = g.emit(Op(30, r.choice([0, 3]), db, e))
     # references
     tabs = info['tables']
     for _ in range(r.choice([0, 1, 1, 2, 3])):
@@ -167,7 +167,7 @@ def gen_database(r, nasty=0.0, size=None, allow_props=None, renderers=(0, 1), db
         rf = g.emit(Op(15, kind, col1, col2, g.ident(['fk_a', 'my fk', 'fk']) if r.random() < 0.3 else None,
                        g.otext(0.2), r.choice(ACTIONS) if r.random() < 0.3 else None,
                        r.choice(ACTIONS) if r.random() < 0.3 else None, inline))
-        g.emit(Op(30, r.choice([0, 2]), db, rf))
+        info['added'][rf] = g.emit(Op(30, r.choice([0, 2]), db, rf))
         info['refs'].append(rf)
     # groups
     for gi in range(r.choice([0, 0, 1, 2])):
@@ -178,17 +178,17 @@ def gen_database(r, nasty=0.0, size=None, allow_props=None, renderers=(0, 1), db
             info['notes'].append(nt)
         gr = g.emit(Op(20, g.ident(['grp', 'my group']) + str(gi), items, g.otext(0.3), nt,
                        r.choice(COLORS) if r.random() < 0.3 else None))
-        g.emit(Op(30, r.choice([0, 4]), db, gr))
+        info['added'][gr] = g.emit(Op(30, r.choice([0, 4]), db, gr))
         info['groups'].append(gr)
     for si in range(r.choice([0, 0, 1, 2])):
         s = g.emit(Op(18, g.ident(['sticky', 'n1', 'my note']), g.text(True)))
-        g.emit(Op(30, r.choice([0, 6]), db, s))
+        info['added'][s] = g.emit(Op(30, r.choice([0, 6]), db, s))
         info['stickies'].append(s)
     if r.random() < 0.4:
         items = [(g.ident(['database_type', 'author', 'my key']), g.text(True)) for _ in range(r.randint(0, 2))]
         items = list(dict(items).items())
         p = g.emit(Op(19, g.ident(['proj', 'my project']), items, vs(g.otext(0.5)), g.otext(0.3)))
-        g.emit(Op(30, r.choice([0, 5]), db, p))
+        info['added'][p] = g.emit(Op(30, r.choice([0, 5]), db, p))
         info['project'] = p
     return g, info
 
